@@ -169,6 +169,16 @@ func (rd *reader) check(d damage, full bool) {
 			k, complete, term, st.describe(k), r.Kind, map[bool]string{true: "WriteSync", false: "Write"}[r.Own], len(r.Frame), st.lay.sizes())
 		return
 	}
+	if d.kind == "bytechange" && d.field != "len" && k == complete && term != nil && term != io.EOF && !cs.IsDataCorruptionError(term) {
+		// the length field is intact, so the decoder had the whole damaged record in
+		// hand: what it reports must be of the corruption class (the class is what
+		// IgnoreDataCorruptionErrors and catchupReplay act on)
+		st.violate("wal-decode", "decode-corruption-not-classified/"+d.label(),
+			"reading %s: the decoder stopped at the damaged record with %T %q, for which consensus.IsDataCorruptionError is false", d, term, term.Error())
+		if st.stop {
+			return
+		}
+	}
 	if k < complete {
 		st.violate("wal-decode", "decode-lost-record/"+d.label()+"/"+errClass(term),
 			"reading %s: only %d of the %d records that lie completely before the damage were yielded, then %v; first missing: %s",
@@ -232,8 +242,48 @@ func (rd *reader) check(d damage, full bool) {
 		if d.pick%16 == 0 && !st.stop {
 			rd.searchAbsent(d, st.absentHeight(d.pick/16), d.pick%32 == 0)
 		}
-		if d.pick%8 == 0 && !st.stop {
-			// statistics only: a marker upstream of the damage
+		if d.field != "len" && !st.stop {
+			// The length field is intact, so the stream stays in step behind the
+			// damaged record: a search that skips corrupted entries
+			// (IgnoreDataCorruptionErrors=true, what catchupReplay passes) must
+			// still find every other completely written marker, before and after.
+			after, before := -1, -1
+			for mi, m := range st.markers {
+				if m == r {
+					continue
+				}
+				if m.Off >= r.End && after < 0 {
+					after = mi
+				}
+				if m.End <= r.Off {
+					before = mi
+				}
+			}
+			older := -1 // a marker in a file older than the damaged record's: the search passes the damage first
+			df := st.lay.fileOf(r.Off)
+			for mi, m := range st.markers {
+				if m != r && st.lay.fileOf(m.Off) < df {
+					older = mi
+				}
+			}
+			switch {
+			case d.field == "payload" && d.pick%2 == 1:
+				// every second payload change: one of the two far ones
+				if older >= 0 && d.pick%4 == 1 {
+					rd.searchWritten(d, older, true)
+				} else if before >= 0 {
+					rd.searchWritten(d, before, true)
+				}
+			default:
+				if after >= 0 {
+					rd.searchWritten(d, after, true)
+				} else if older >= 0 {
+					rd.searchWritten(d, older, true)
+				}
+			}
+		}
+		if d.pick%8 == 0 && d.field == "len" && !st.stop {
+			// statistics only (a changed length field may hide what follows): a marker upstream of the damage
 			up := -1
 			for mi, m := range st.markers {
 				if m.End <= r.Off {
@@ -245,11 +295,11 @@ func (rd *reader) check(d damage, full bool) {
 				found, _, ok := rd.search(d, st.markers[up].Height, ign)
 				if ok {
 					if found {
-						c.Probe("bytechange_upstream_marker_found")
+						c.Probe("lenchange_upstream_marker_found")
 					} else if ign {
-						c.Probe("bytechange_upstream_marker_missed_ignoring_corruption")
+						c.Probe("lenchange_upstream_marker_missed_ignoring_corruption")
 					} else {
-						c.Probe("bytechange_upstream_marker_missed_strict")
+						c.Probe("lenchange_upstream_marker_missed_strict")
 					}
 				}
 			}
@@ -316,6 +366,9 @@ func (rd *reader) searchWritten(d damage, mi int, ignore bool) {
 	st := rd.st
 	m := st.markers[mi]
 	want := m.End <= d.x
+	if d.kind == "bytechange" {
+		want = true // only asked for changes that leave the stream in step and for markers other than the damaged record
+	}
 	if !rd.affordable(d, st.lay.fileOf(m.Off)) {
 		return
 	}
@@ -345,6 +398,9 @@ func (rd *reader) searchWritten(d damage, mi int, ignore bool) {
 	case want && !found:
 		f := st.lay.fileOf(m.Off)
 		newest := st.lay.fileOf(max0(d.x - 1))
+		if d.kind == "bytechange" {
+			newest = st.lay.fileOf(max0(len(st.lay.concat) - 1))
+		}
 		where := "marker-in-older-file"
 		if f == newest {
 			where = "marker-in-newest-file"
@@ -358,11 +414,11 @@ func (rd *reader) searchWritten(d damage, mi int, ignore bool) {
 			}
 		}
 		ec := errClass(err)
-		if cause == "" && d.kind != "intact" && !st.isBoundary(d.x) && (ec == "err-read-length" || ec == "err-read-data") && f < newest {
+		if cause == "" && (d.kind == "truncation" || d.kind == "truncation-fresh") && !st.isBoundary(d.x) && (ec == "err-read-length" || ec == "err-read-data") && f < newest {
 			cause = "torn-tail-read-error"
 		}
 		if cause == "" {
-			cause = "other/" + d.kind + "/" + where + "/" + ec
+			cause = "other/" + d.label() + "/" + where + "/" + ec
 		}
 		st.stats["search-miss/"+cause]++
 		st.violate("wal-search", "search-miss/"+cause,
